@@ -47,6 +47,18 @@ def replay_scaling(model, n=2, partial=False):
     m = model_floats(model, ["M", "tau", "c"] + [f"t{k}" for k in range(n)], default=dict(M=1000.0, tau=300.0, c=3.0, **{f"t{k}": 50.0 * (k + 1) for k in range(n)}))
     f = ForecasterOnePhase(_rf_real)
     t = np.array([m[f"t{k}"] for k in range(n)])
+    # the end of the scale: M = 0 (a well that produces nothing) gives zero production, on a fresh forecaster and on a
+    # fitted one alike (linearity in M includes the factor 0)
+    for fitted in (False, True):
+        g = ForecasterOnePhase(_rf_real)
+        if fitted:
+            g.M_, g.tau_ = 227.0, 140.0
+        try:
+            z = np.asarray(g.forecast_cum(t, 0.0, m["tau"] or 300.0), float)
+        except Exception as ex:  # noqa: BLE001
+            return True, {"what": f"forecast_cum(t, M=0.0, tau) on a {'fitted' if fitted else 'fresh'} forecaster raised {ex!r}", "inputs": m}
+        if np.any(z != 0):
+            return True, {"what": f"forecast_cum(t, M=0.0, tau) on a {'fitted' if fitted else 'fresh'} forecaster = {z.tolist()} (must be zero)", "inputs": m}
     a = f.forecast_cum(t, m["M"], m["tau"])
     b = f.forecast_cum(t, m["c"] * m["M"], m["tau"])
     c = f.forecast_cum(m["c"] * t, m["M"], m["c"] * m["tau"])
@@ -148,7 +160,10 @@ def job_scaling(job, n):
     f = mod.ForecasterOnePhase(rf)
     rp = (replay_scaling, {"n": n})
     for k, pr in enumerate(paths(job, lambda: (f.forecast_cum(t, vs["M"], vs["tau"]), f.forecast_cum(t, vs["c"] * vs["M"], vs["tau"]),
-                                                 f.forecast_cum(t * vs["c"], vs["M"], vs["c"] * vs["tau"])), dom)):
+                                                 f.forecast_cum(t * vs["c"], vs["M"], vs["c"] * vs["tau"])), dom, catch=(Exception,))):
+        if pr.exc is not None:
+            job.prove(f"scaling[{n}]/forecast_cum raises {type(pr.exc).__name__} on admissible arguments[path{k}]", pr.pc, bound=f"{n} times", replay=rp, note=repr(pr.exc)[:100])
+            continue
         a, b, c = pr.value
         job.prove(f"scaling[{n}]/forecast_cum == M * rf(t / tau)", pr.pc + [T.b_or(*[not_close(a.d[j], vs["M"] * rf(ts[j] / vs["tau"]), abs_tol=Fraction(0)) for j in range(n)])],
                   bound=f"{n} times", replay=rp)
